@@ -8,5 +8,5 @@ export GOFLAGS=-mod=mod GOPROXY=off
 export SSE_VERIF="$here"
 [ -n "${VP_RUN_REPO:-}" ] && export SSE_REPO="$VP_RUN_REPO"
 for p in "$@"; do
-  /usr/bin/time -f "$p wall=%es" ./bin/sse check "$p" --tier thorough --no-evidence -j 8 2>&1 | grep "^sse\|VIOLATION\|harness=\|INCONCL\|KNOWN\|wall=" | cut -c1-260
+  /usr/bin/time -f "$p wall=%es" timeout ${TMO:-2700} ./bin/sse check "$p" --tier thorough --no-evidence -j ${JOBS:-8} 2>&1 | grep "^sse\|VIOLATION\|harness=\|INCONCL\|KNOWN\|wall=" | cut -c1-260
 done
